@@ -225,8 +225,21 @@ pub fn run(ctx: &mut Ctx, c: &Case) -> (String, String) {
             let x = c.bytes("x");
             let h = c.bytes("h");
             let fx = if c.str("fx").is_empty() { x.clone() } else { c.bytes("fx") };
-            let hs = ctx.hay.place(&h, c.num("a"), flush_of(c.num("fl")));
-            let xs = ctx.needle.place(&fx, c.num("an"), flush_of(c.num("fln")));
+            let low = if c.num("low") == 1 { crate::arena::LowPage::new() } else { None };
+            if c.num("low") == 1 && low.is_none() {
+                return ("SkipLowMapUnavailable".to_string(), "-".to_string());
+            }
+            let hs = match low.as_ref() {
+                Some(lp) => lp.place(&h),
+                None => ctx.hay.place(&h, c.num("a"), flush_of(c.num("fl"))),
+            };
+            let fxv;
+            let xs: &[u8] = if fx.len() + 2 * crate::arena::PAGE <= ctx.needle.capacity() {
+                ctx.needle.place(&fx, c.num("an"), flush_of(c.num("fln")))
+            } else {
+                fxv = fx.clone();
+                &fxv
+            };
             let (i1, i2) = (c.num("i1") as u8, c.num("i2") as u8);
             let isa = c.str("isa").to_string();
             let find = c.op == "ppfind";
